@@ -73,12 +73,31 @@ func (g *gen) letForm(d int, ret Ty) {
 			}
 		}
 		g.lateNames = late
+		// (let ((x (+ x 1))) ...): the init expression reads the binding of
+		// the same name that is being shadowed
+		var outer *bind
+		if ob := g.lookup(name); ob != nil && isNumVar(ob) && ob.ready && !g.avoid[name] && g.chance(60) {
+			outer = ob
+			ty = tNum
+		}
 		b := g.newLocal(name, kind, ty)
 		br := g.bindingOpen()
 		g.bindOcc(b)
 		// the init expression sees the outer scope (let) or the earlier
 		// bindings (let*), never the binding itself
-		g.typed(d-1, ty)
+		if outer != nil {
+			g.feat("init-reads-shadowed")
+			if g.chance(50) {
+				g.ref(cand{outer, false}, "init-of-same-name")
+			} else {
+				g.e.head("+")
+				g.ref(cand{outer, false}, "init-of-same-name")
+				g.num(d - 1)
+				g.e.close()
+			}
+		} else {
+			g.typed(d-1, ty)
+		}
 		g.bindingClose(br)
 		if seq {
 			g.add(b)
@@ -120,8 +139,24 @@ func (g *gen) fletForm(d int) {
 		br bool
 	}
 	// decide names and signatures first (labels functions see each other)
+	outerOf := map[*bind]cand{}
 	for i := 0; i < n; i++ {
 		name := g.binderName(fnPool)
+		// (flet ((f (a) (f a))) ...): in flet the inner call is the OUTER f
+		var outer *cand
+		if !labels && g.chance(35) {
+			var cs []cand
+			for _, c := range g.cands(isCallable) {
+				if !c.qual && c.b.sig != nil && allNum(c.b.sig.req) && len(c.b.sig.req) > 0 && len(c.b.sig.keys) == 0 {
+					cs = append(cs, c)
+				}
+			}
+			if len(cs) > 0 {
+				c := g.pickCand(cs)
+				outer = &c
+				name = c.b.name
+			}
+		}
 		if names[name] {
 			continue
 		}
@@ -129,6 +164,14 @@ func (g *gen) fletForm(d int) {
 		b := g.newLocal(name, kind, tFn(0))
 		b.mut = false
 		b.sig = &sig{ret: tNum}
+		if outer != nil {
+			outerOf[b] = *outer
+			g.feat("flet-calls-outer-same-name")
+			b.sig.req = append([]Ty{}, outer.b.sig.req...)
+			b.ty = Ty{'F', 0}
+			fs = append(fs, b)
+			continue
+		}
 		for j, m := 0, 1+g.intn(2); j < m; j++ {
 			b.sig.req = append(b.sig.req, tNum)
 		}
@@ -150,6 +193,32 @@ func (g *gen) fletForm(d int) {
 		br := g.bindingOpen()
 		g.bindOcc(b)
 		ps := g.paramList(b.sig)
+		if oc, ok := outerOf[b]; ok {
+			g.push()
+			for _, p := range ps {
+				g.add(p)
+			}
+			if g.lookup(oc.b.name) == oc.b {
+				g.e.head("+")
+				g.e.open()
+				g.ref(oc, "flet-body-outer-call")
+				for _, p := range ps {
+					if g.lookup(p.name) == p {
+						g.ref(cand{p, false}, "")
+					} else {
+						g.e.lit("1")
+					}
+				}
+				g.e.close()
+				g.e.lit("1")
+				g.e.close()
+			} else {
+				g.numLeaf()
+			}
+			g.pop()
+			g.bindingClose(br)
+			continue
+		}
 		if labels && i == 0 && g.chance(40) && g.lookupAfterParams(ps, b) {
 			// bounded self recursion: (if (<= p 0) base (f (- p 1) ...))
 			g.feat("labels-recursion")
@@ -257,13 +326,43 @@ func (g *gen) dotimesForm(d int) {
 	g.e.close()
 	g.push()
 	g.add(acc)
-	iv := g.newLocal(g.binderName(localPool), "dotimes", tNum)
+	// The count expression is evaluated BEFORE the loop variable is bound, so
+	// it reads the enclosing scope even when the loop variable has the same
+	// name: (dotimes (n (mod n 4)) ...).  Half of the counts read a variable,
+	// and half of those loops reuse that variable's name.
+	var countVar *cand
+	if g.chance(50) {
+		var bare []cand
+		for _, c := range g.cands(isNumVar) {
+			if !c.qual {
+				bare = append(bare, c)
+			}
+		}
+		if len(bare) > 0 {
+			c := g.pickCand(bare)
+			countVar = &c
+		}
+	}
+	ivName := g.binderName(localPool)
+	if countVar != nil && g.chance(50) {
+		ivName = countVar.b.name
+		g.feat("dotimes-var-shadows-count-var")
+	}
+	iv := g.newLocal(ivName, "dotimes", tNum)
 	iv.mut = false
 	withResult := g.trig["dotimes-result"] && g.chance(50)
 	g.e.head("dotimes")
 	g.e.open()
 	g.bindOcc(iv)
-	g.e.lit([]string{"0", "1", "2", "3"}[g.intn(4)])
+	if countVar != nil {
+		g.feat("dotimes-count-expr")
+		g.e.head("mod")
+		g.ref(*countVar, "dotimes-count")
+		g.e.lit("4")
+		g.e.close()
+	} else {
+		g.e.lit([]string{"0", "1", "2", "3"}[g.intn(4)])
+	}
 	g.push()
 	g.add(iv)
 	if withResult {
